@@ -41,10 +41,21 @@ func indentAndWrite(buf *bytes.Buffer, dst []byte, src []byte, prefix, indentStr
 	if err != nil {
 		return nil, err
 	}
+	// space characters after the value are preserved (src ends with the nul terminator)
+	end := len(src) - 1
+	start := end
+	for start > 0 && isSpace(src[start-1]) {
+		start--
+	}
+	dst = append(dst, src[start:end]...)
 	if _, err := buf.Write(dst); err != nil {
 		return nil, err
 	}
 	return dst, nil
+}
+
+func isSpace(c byte) bool {
+	return c == ' ' || c == '\t' || c == '\n' || c == '\r'
 }
 
 func doIndent(dst, src []byte, prefix, indentStr string, escape bool) ([]byte, error) {
